@@ -216,6 +216,42 @@ func c10Run(j c10Job) *jobReport {
 		e.Banned = true // flag changed after signing
 		r.Servers = []server.AuthorizedServer{e}
 		mustReject("server-entry-altered-after-signing", r.encode(srvKey.Priv))
+		// ... and the same forgery after the client has seen (and accepted) the genuine entry whose signature
+		// it reuses: nothing remembered from an accepted reply may vouch for different content. Every field.
+		seen := append([]server.AuthorizedServer{signedServer("S9", false, "10.9.9.9", 1, gca.Priv)}, list...)
+		if hasMig {
+			seen = seen[:1] // the entries of a migration order are signed by the new GCA and checked in the migration block
+		}
+		for _, g := range seen {
+			r.Servers = []server.AuthorizedServer{g}
+			p.Hub.serveBytes(p.Addr.tcpAddr(), func([]byte) []byte { return r.encode(srvKey.Priv) })
+			if _, _, _, _, _, e, pn := parse(); e != nil || pn != "" {
+				rep.fail("authentic-reply-rejected/single-genuine-entry", map[string]interface{}{"config": cfg, "err": fmt.Sprint(e), "panic": firstLine(pn)})
+				continue
+			}
+			rep.Evals++
+			for _, field := range []string{"banned", "key", "location", "http", "tcp", "udp"} {
+				f := g
+				switch field {
+				case "banned":
+					f.Banned = !f.Banned
+				case "key":
+					f.PublicKey = key("server-forged").Pub
+				case "location":
+					f.Location += "x"
+				case "http":
+					f.HttpPort++
+				case "tcp":
+					f.TcpPort++
+				case "udp":
+					f.UdpPort++
+				}
+				r.Servers = []server.AuthorizedServer{f}
+				mustReject("accepted-entry-replayed-with-altered-"+field, r.encode(srvKey.Priv))
+				r.Servers = []server.AuthorizedServer{g, f}
+				mustReject("accepted-entry-followed-by-altered-"+field, r.encode(srvKey.Priv))
+			}
+		}
 		// migration order: outer signature by a key that is not the client's GCA; inner by the old GCA
 		g3 := key("G3")
 		mk := func(outer, inner keyPair, equip glow.PublicKey) []byte {
@@ -244,6 +280,26 @@ func c10Run(j c10Job) *jobReport {
 		rep.Evals++
 		if pn2 != "" || e2 != nil || ng2 != g3.Pub || nid2 != 77 || len(l2) != 1 {
 			rep.fail("valid-migration-rejected", map[string]interface{}{"config": cfg, "err": fmt.Sprint(e2)})
+		}
+		// after that order has been accepted: the same signatures around altered content
+		for _, field := range []string{"new-id", "new-gca", "inner-port", "inner-banned", "extra-inner"} {
+			em := server.EquipmentMigration{Equipment: p.Dev.Pub, NewGCA: g3.Pub, NewShortID: 77}
+			em.NewServers = []server.AuthorizedServer{signedServer("N1", false, "10.7.7.7", 1, g3.Priv)}
+			em.Signature = glow.Sign(refMigrationSigningBytes(em), gca.Priv)
+			switch field {
+			case "new-id":
+				em.NewShortID++
+			case "new-gca":
+				em.NewGCA = key("G2").Pub
+			case "inner-port":
+				em.NewServers[0].TcpPort++
+			case "inner-banned":
+				em.NewServers[0].Banned = true
+			case "extra-inner":
+				em.NewServers = append(em.NewServers, signedServer("N2", false, "10.7.7.8", 1, g3.Priv))
+			}
+			rr := refReply{DevKey: p.Dev.Pub, Offset: off, Bitfield: bits, Timestamp: ts, NewGCA: em.NewGCA, NewID: em.NewShortID, Servers: em.NewServers, MigSig: em.Signature}
+			mustReject("accepted-migration-replayed-with-altered-"+field, rr.encode(srvKey.Priv))
 		}
 	}
 	// reference-encoded replies with arbitrary field values must parse to exactly those values
